@@ -77,10 +77,45 @@ func judge(c Case, w *vkit.W) {
 	if fp != nil {
 		*fp = c.Scribble.date()
 	}
+	shift := int64(-3)
+	if c.Scribble.D%2 == 1 {
+		shift = 5
+	}
 	if tp != nil {
-		*tp = c.Scribble.date().Add(0, 0, -3)
+		*tp = c.Scribble.date().Add(0, 0, int(shift))
 	}
 	check("after the caller overwrote its bound variables")
+
+	// second construction from the very same variables, which now hold other bounds: a fresh filter for the new bounds
+	var from2, to2 *YMD
+	if fp != nil {
+		v := c.Scribble
+		from2 = &v
+	}
+	if tp != nil {
+		y, m, d := ref.CivilFromDays(c.Scribble.ord() + shift)
+		to2 = &YMD{y, m, d}
+	}
+	f2, err2 := date.FilterFromTo(fp, tp)
+	wantErr2 := from2 != nil && to2 != nil && from2.ord() > to2.ord()
+	if wantErr2 {
+		if !errors.Is(err2, date.ErrInvalidFromOrTo) || f2 != nil {
+			w.Fail(c, "invalid-bounds-accepted", fmt.Sprintf("second FilterFromTo on the same variables, now (%v, %v): filter %v, error %v", from2, to2, f2, err2))
+		}
+		return
+	}
+	if err2 != nil || f2 == nil {
+		w.Fail(c, "valid-bounds-rejected", fmt.Sprintf("second FilterFromTo on the same variables, now (%v, %v) = %v, %v", from2, to2, f2, err2))
+		return
+	}
+	for _, p := range c.Probes {
+		want := (from2 == nil || from2.ord() <= p.ord()) && (to2 == nil || p.ord() <= to2.ord())
+		if got := f2.Contains(p.date()); got != want {
+			w.Fail(c, "contains", fmt.Sprintf("filter rebuilt from the same variables, now [%v, %v].Contains(%v) = %v, the inclusive interval says %v", from2, to2, p, got, want))
+		}
+	}
+	// and the first filter still has its own bounds
+	check("after a second filter was built from the same variables")
 }
 
 func window(size int) []YMD {
@@ -183,6 +218,28 @@ func TestCheck(t *testing.T) {
 		})
 	})
 	r.Exhaustive(fmt.Sprintf("all (from, to, probe) triples over the %d-date window (day, month, year and leap boundaries; same month number in different years) x the four nil/non-nil shapes, with caller-variable overwrite", n))
+
+	r.Phase("A2: for every year 0..9998: bounds and probes around the year boundary and around the end of February", func() {
+		r.Parallel(9999, 64, func(w *vkit.W, lo, hi int64) {
+			for y := lo; y < hi; y++ {
+				feb := ref.DaysIn(y, 2)
+				pts := []YMD{{y, 12, 30}, {y, 12, 31}, {y + 1, 1, 1}, {y + 1, 1, 2}, {y, 2, feb}, {y, 3, 1}, {y, 2, feb - 1}}
+				for i := range pts {
+					for j := range pts {
+						f, t := pts[i], pts[j]
+						c := Case{From: &f, To: &t, Probes: pts, Scribble: pts[(i+j)%len(pts)]}
+						judge(c, w)
+						w.EvalN(int64(len(pts)), int64(len(pts)))
+					}
+					b := pts[i]
+					judge(Case{From: &b, Probes: pts, Scribble: pts[0]}, w)
+					judge(Case{To: &b, Probes: pts, Scribble: pts[1]}, w)
+					w.EvalN(2*int64(len(pts)), 2*int64(len(pts)))
+				}
+			}
+		})
+	})
+	r.Exhaustive("for every year 0..9998: all (from, to, probe) triples over the seven dates around its year end and its end of February, plus one-sided filters")
 
 	nRand := int64(r.Pick(200000, 20000000))
 	r.Phase(fmt.Sprintf("B: %d seeded random triples over years 0000-9999", nRand), func() {
